@@ -1,10 +1,12 @@
 package codegen
 
 import (
+	gobuild "go/build"
 	goparser "go/parser"
 	gotoken "go/token"
 	"os"
 	"path/filepath"
+	"strings"
 )
 
 func (c *context) PreParseGo() bool {
@@ -14,14 +16,24 @@ func (c *context) PreParseGo() bool {
 		return false
 	}
 
+	// The package name comes from one of the package's own sources: not from
+	// a generated file (possibly stale), a test file (possibly of the external
+	// test package) or a file excluded by build constraints.
 	var oneSourceName string
 	for _, dirEntry := range dirEntries {
-		if !dirEntry.IsDir() &&
-			filepath.Ext(dirEntry.Name()) == ".go" &&
-			dirEntry.Name() != lexerGenGo &&
-			dirEntry.Name() != parserGenGo {
-			oneSourceName = filepath.Join(c.Dir, dirEntry.Name())
+		name := dirEntry.Name()
+		if dirEntry.IsDir() ||
+			filepath.Ext(name) != ".go" ||
+			name == baseGenGo ||
+			name == lexerGenGo ||
+			name == parserGenGo ||
+			strings.HasSuffix(name, "_test.go") {
+			continue
 		}
+		if match, err := gobuild.Default.MatchFile(c.Dir, name); err == nil && !match {
+			continue
+		}
+		oneSourceName = filepath.Join(c.Dir, name)
 	}
 	if oneSourceName == "" {
 		c.Errs.GeneralErrorf("package contains no Go sources")
